@@ -6,6 +6,7 @@ import Gonuts.Spec.Spendable
   the exhaustive decider `canSign`, `findKey`, the greedy loop `hvsCount`, tag parsing.
 -/
 namespace Gonuts.Lemmas.Spend
+set_option linter.unusedSimpArgs false
 open Gonuts.Model.Spend Gonuts.Spec.Spendable
 
 /-! ## lists -/
@@ -306,6 +307,138 @@ theorem hvsCount_le_countValid (valid : Sig → Key → Msg → Bool) (m : Msg) 
       simp only [hany, if_true, List.length_cons]
       omega
 
+/-! ## the greedy loop of the repaired code is sound and — when a signature verifies under one key only — complete -/
+
+/-- a signature verifies under at most one of the listed keys -/
+def UniqueSigner (valid : Sig → Key → Msg → Bool) (m : Msg) (keys : List Key) : Prop :=
+  ∀ s k k', k ∈ keys → k' ∈ keys → valid s k m = true → valid s k' m = true → k = k'
+
+theorem UniqueSigner.mono {valid : Sig → Key → Msg → Bool} {m : Msg} {keys keys' : List Key}
+    (h : UniqueSigner valid m keys) (hs : keys' ⊆ keys) : UniqueSigner valid m keys' :=
+  fun s k k' hk hk' => h s k k' (hs hk) (hs hk')
+
+/-- the greedy count is witnessed by that many DISTINCT key positions -/
+theorem hvsCount_signed (valid : Sig → Key → Msg → Bool) (m : Msg) :
+    ∀ (sigs : List Sig) (keys : List Key), Signed valid m sigs keys (hvsCount valid m sigs keys) := by
+  intro sigs
+  induction sigs with
+  | nil => intro keys; simp only [hvsCount]; exact signed_zero _ _ _ _
+  | cons s rest ih =>
+    intro keys
+    unfold hvsCount
+    cases hf : findKey valid m s keys with
+    | none => exact signed_skip (ih keys)
+    | some i =>
+      simp only [removeMatchedKey, if_true]
+      obtain ⟨k, hk, hv⟩ := findKey_some hf
+      rw [Nat.add_comm]
+      exact signed_take hk hv (ih _)
+
+theorem signed_perm {valid : Sig → Key → Msg → Bool} {m : Msg} {sigs : List Sig} {keys keys' : List Key} {n : Nat}
+    (hp : keys.Perm keys') (h : Signed valid m sigs keys n) : Signed valid m sigs keys' n := by
+  obtain ⟨ps, hl, hs, hk, hv⟩ := signed_iff.1 h
+  exact signed_iff.2 ⟨ps, hl, hs, (hp.subperm_left).1 hk, hv⟩
+
+theorem map_snd_eraseP (k0 : Key) : ∀ (ps : List (Sig × Key)),
+    (ps.eraseP (fun p => p.2 == k0)).map Prod.snd = (ps.map Prod.snd).erase k0
+  | [] => rfl
+  | p :: ps => by
+    simp only [List.eraseP_cons, List.map_cons, List.erase_cons]
+    by_cases h : p.2 == k0
+    · simp [h]
+    · simp [h, map_snd_eraseP k0 ps]
+
+/-- giving up one key position costs at most one signer -/
+theorem signed_erase {valid : Sig → Key → Msg → Bool} {m : Msg} {sigs : List Sig} {keys : List Key} {n i : Nat} {k0 : Key}
+    (hi : keys[i]? = some k0) (h : Signed valid m sigs keys (n + 1)) : Signed valid m sigs (keys.eraseIdx i) n := by
+  obtain ⟨ps, hl, hs, hk, hv⟩ := signed_iff.1 h
+  have hp := perm_cons_eraseIdx keys i k0 hi
+  have hk' : (ps.map Prod.snd).Subperm (k0 :: keys.eraseIdx i) := (hp.subperm_left).1 hk
+  have hk'' := hk'.erase k0
+  rw [List.erase_cons_head, ← map_snd_eraseP] at hk''
+  have hsub : (ps.eraseP (fun p => p.2 == k0)).Sublist ps := List.eraseP_sublist
+  have hlen : n ≤ (ps.eraseP (fun p => p.2 == k0)).length := by
+    rw [List.length_eraseP]; split <;> omega
+  have : Signed valid m sigs (keys.eraseIdx i) (ps.eraseP (fun p => p.2 == k0)).length :=
+    signed_iff.2 ⟨_, rfl, (hsub.map Prod.fst).trans hs, hk'', fun p hp => hv p (hsub.subset hp)⟩
+  exact signed_mono this hlen
+
+/-- COMPLETENESS of the greedy loop: if `n` distinct key positions signed, the loop counts at least `n`. -/
+theorem signed_le_hvsCount (valid : Sig → Key → Msg → Bool) (m : Msg) :
+    ∀ (sigs : List Sig) (keys : List Key) (n : Nat), UniqueSigner valid m keys → Signed valid m sigs keys n →
+      n ≤ hvsCount valid m sigs keys := by
+  intro sigs
+  induction sigs with
+  | nil => intro keys n _ h; have := (signed_le h).1; simp at this; omega
+  | cons s rest ih =>
+    intro keys n hu h
+    cases n with
+    | zero => omega
+    | succ n =>
+      unfold hvsCount
+      cases hf : findKey valid m s keys with
+      | none =>
+        simp only
+        rcases signed_cons_cases h with h | ⟨j, k, hj, hv, _⟩
+        · exact ih keys (n + 1) hu h
+        · have := (findKey_none.1 hf) k (List.mem_of_getElem? hj)
+          rw [hv] at this; cases this
+      | some i =>
+        simp only [removeMatchedKey, if_true]
+        obtain ⟨k0, hk0, hv0⟩ := findKey_some hf
+        have hu' : UniqueSigner valid m (keys.eraseIdx i) := hu.mono (List.eraseIdx_sublist keys i).subset
+        rcases signed_cons_cases h with h | ⟨j, k, hj, hv, h⟩
+        · have := ih _ n hu' (signed_erase hk0 h)
+          omega
+        · have hkk : k = k0 := hu s k k0 (List.mem_of_getElem? hj) (List.mem_of_getElem? hk0) hv hv0
+          subst hkk
+          have hp : (keys.eraseIdx j).Perm (keys.eraseIdx i) :=
+            ((perm_cons_eraseIdx keys j k hj).symm.trans (perm_cons_eraseIdx keys i k hk0)).cons_inv
+          have := ih _ n hu' (signed_perm hp h)
+          omega
+
+/-- for the threshold 1 no hypothesis is needed: some signature verifies under some listed key -/
+theorem signed_one_iff {valid : Sig → Key → Msg → Bool} {m : Msg} {sigs : List Sig} {keys : List Key} :
+    Signed valid m sigs keys 1 ↔ ∃ s ∈ sigs, ∃ k ∈ keys, valid s k m = true := by
+  constructor
+  · intro h
+    obtain ⟨ps, hl, hs, hk, hv⟩ := signed_iff.1 h
+    match ps, hl with
+    | [p], _ =>
+      exact ⟨p.1, hs.subset (by simp), p.2, hk.subset (by simp), hv p (by simp)⟩
+  · rintro ⟨s, hs, k, hk, hv⟩
+    refine signed_iff.2 ⟨[(s, k)], rfl, by simpa using hs, ?_, by simpa using hv⟩
+    exact (List.singleton_sublist.2 hk).subperm
+
+theorem one_le_hvsCount_iff (valid : Sig → Key → Msg → Bool) (m : Msg) :
+    ∀ (sigs : List Sig) (keys : List Key), 1 ≤ hvsCount valid m sigs keys ↔ ∃ s ∈ sigs, ∃ k ∈ keys, valid s k m = true := by
+  intro sigs
+  induction sigs with
+  | nil => intro keys; simp [hvsCount]
+  | cons s rest ih =>
+    intro keys
+    unfold hvsCount
+    cases hf : findKey valid m s keys with
+    | none =>
+      simp only [ih keys, List.mem_cons, exists_eq_or_imp]
+      constructor
+      · exact Or.inr
+      · rintro (⟨k, hk, hv⟩ | h)
+        · have := (findKey_none.1 hf) k hk; rw [hv] at this; cases this
+        · exact h
+    | some i =>
+      obtain ⟨k, hk, hv⟩ := findKey_some hf
+      simp only [List.mem_cons, exists_eq_or_imp]
+      constructor
+      · intro _; exact Or.inl ⟨k, List.mem_of_getElem? hk, hv⟩
+      · intro _; omega
+
+theorem duplicateSignatures_iff : ∀ (l : List Sig), duplicateSignatures l = false ↔ l.Nodup
+  | [] => by simp [duplicateSignatures]
+  | s :: rest => by
+    simp only [duplicateSignatures, Bool.or_eq_false_iff, List.nodup_cons, duplicateSignatures_iff rest]
+    simp
+
 /-! ## ProofsSigAll -/
 
 /-- the proof is a NUT-10 secret whose tags contain `["sigflag","SIG_ALL"]` -/
@@ -350,5 +483,509 @@ theorem proofsSigAll_of_all_nut10 : ∀ (proofs : List Proof), (∀ q ∈ proofs
         rcases List.mem_cons.1 hq with rfl | hq
         · rw [hs] at hs'; cases hs'; exact absurd ha' ha
         · exact ⟨q, hq, s', hs', ha'⟩
+
+/-! ## tag parsing against the declarative reading; the two verifiers against the specification -/
+open Gonuts.Model.Spend Gonuts.Spec.Spendable
+
+theorem parseKeys_ok (env : Env) : ∀ l : List String, (∀ k ∈ l, (env.parseKey k).isSome = true) →
+    parseKeys env l = .ok (l.filterMap env.parseKey)
+  | [], _ => rfl
+  | s :: rest, h => by
+    unfold parseKeys
+    have hs := h s (by simp)
+    cases hk : env.parseKey s with
+    | none => simp [hk] at hs
+    | some k =>
+      simp only [parseKeys_ok env rest (fun k hk => h k (by simp [hk])), List.filterMap_cons, hk]
+
+theorem parseKeys_err (env : Env) : ∀ l : List String, ¬ (∀ k ∈ l, (env.parseKey k).isSome = true) →
+    parseKeys env l = .err .badPublicKey
+  | [], h => by simp at h
+  | s :: rest, h => by
+    unfold parseKeys
+    cases hk : env.parseKey s with
+    | none => rfl
+    | some k =>
+      have : ¬ (∀ k ∈ rest, (env.parseKey k).isSome = true) := by
+        intro h'; apply h; intro x hx
+        rcases List.mem_cons.1 hx with rfl | hx
+        · simp [hk]
+        · exact h' x hx
+      simp only [parseKeys_err env rest this]
+
+/-- what the accumulated tags look like after the loop has run over `tags` starting from `acc` -/
+def overlay (env : Env) (tags : List (List String)) (acc : Tags) : Tags where
+  sigflag := match lastTag SIGFLAG tags with | some t => (t[1]?).getD "" | none => acc.sigflag
+  nSigs := match lastTag NSIGS tags with | some t => ((tagInt t).getD 0).toNat | none => acc.nSigs
+  pubkeys := match lastTag PUBKEYS tags with | some t => t.tail.filterMap env.parseKey | none => acc.pubkeys
+  locktime := match lastTag LOCKTIME tags with | some t => (tagInt t).getD 0 | none => acc.locktime
+  refund := match lastTag REFUND tags with | some t => t.tail.filterMap env.parseKey | none => acc.refund
+
+theorem lastTag_cons (name : String) (t : List String) (rest : List (List String)) :
+    lastTag name (t :: rest) = match lastTag name rest with
+      | some v => some v
+      | none => if t.head? = some name then some t else none := rfl
+
+theorem overlay_cons (env : Env) (ty v : String) (more : List String) (rest : List (List String)) (acc : Tags) :
+    overlay env ((ty :: v :: more) :: rest) acc = overlay env rest
+      { sigflag := if ty = SIGFLAG then v else acc.sigflag,
+        nSigs := if ty = NSIGS then ((decimal? v).getD 0).toNat else acc.nSigs,
+        pubkeys := if ty = PUBKEYS then (v :: more).filterMap env.parseKey else acc.pubkeys,
+        locktime := if ty = LOCKTIME then (decimal? v).getD 0 else acc.locktime,
+        refund := if ty = REFUND then (v :: more).filterMap env.parseKey else acc.refund } := by
+  simp only [overlay, lastTag_cons, List.head?_cons, Option.some.injEq]
+  congr 1
+  · by_cases hty : ty = SIGFLAG <;> cases lastTag SIGFLAG rest <;> simp [hty]
+  · by_cases hty : ty = NSIGS <;> cases lastTag NSIGS rest <;> simp [hty, tagInt]
+  · by_cases hty : ty = PUBKEYS <;> cases lastTag PUBKEYS rest <;> simp [hty]
+  · by_cases hty : ty = LOCKTIME <;> cases lastTag LOCKTIME rest <;> simp [hty, tagInt]
+  · by_cases hty : ty = REFUND <;> cases lastTag REFUND rest <;> simp [hty]
+
+
+theorem wf_cons2 (env : Env) (ty v : String) (more : List String) :
+    wellFormedTagB env (ty :: v :: more) = true ↔
+      (ty = SIGFLAG → v = SIGINPUTS ∨ v = SIGALL) ∧
+      (ty = NSIGS → ∃ n : Int, decimal? v = some n ∧ 0 ≤ n ∧ n ≤ 127) ∧
+      (ty = LOCKTIME → ∃ l : Int, decimal? v = some l ∧ -(2 ^ 63 : Int) ≤ l ∧ l < (2 ^ 63 : Int)) ∧
+      ((ty = PUBKEYS ∨ ty = REFUND) → ∀ k ∈ v :: more, (env.parseKey k).isSome = true) := by
+  rw [wellFormedTagB_iff]
+  simp [tagInt]
+
+theorem wf_short (env : Env) : wellFormedTagB env [] = false ∧ ∀ x, wellFormedTagB env [x] = false := by
+  constructor
+  · simp [wellFormedTagB]
+  · intro x; simp [wellFormedTagB]
+
+theorem parseInt8_iff (v : String) (n : Int) :
+    (parseInt v 8 = some n ∧ ¬ n < 0) ↔ (decimal? v = some n ∧ 0 ≤ n ∧ n ≤ 127) := by
+  unfold parseInt
+  cases decimal? v with
+  | none => simp
+  | some x =>
+    simp only [Option.some.injEq]
+    constructor
+    · rintro ⟨h, hn⟩
+      split at h
+      · rename_i hr; cases h; simp at hr; omega
+      · cases h
+    · rintro ⟨rfl, h0, h1⟩
+      have : -(2 ^ (8 - 1) : Int) ≤ x ∧ x < (2 ^ (8 - 1) : Int) := by simp; omega
+      simp only [this, and_self, if_true, true_and]; omega
+
+
+theorem parseInt64_iff (v : String) (l : Int) :
+    parseInt v 64 = some l ↔ (decimal? v = some l ∧ -(2 ^ 63 : Int) ≤ l ∧ l < (2 ^ 63 : Int)) := by
+  unfold parseInt
+  cases decimal? v with
+  | none => simp
+  | some x =>
+    simp only [Option.some.injEq]
+    constructor
+    · intro h
+      split at h
+      · rename_i hr; cases h; simpa using hr
+      · cases h
+    · rintro ⟨rfl, h⟩
+      have : -(2 ^ (64 - 1) : Int) ≤ x ∧ x < (2 ^ (64 - 1) : Int) := by simpa using h
+      simp only [this, and_self, if_true]
+
+theorem loop_ok (env : Env) : ∀ (tags : List (List String)) (acc : Tags),
+    (∀ t ∈ tags, wellFormedTagB env t = true) → parseTagsLoop env tags acc = .ok (overlay env tags acc) := by
+  intro tags
+  induction tags with
+  | nil => intro acc _; simp [parseTagsLoop, overlay, lastTag]
+  | cons tag rest ih =>
+    intro acc h
+    have hw := h tag (by simp)
+    have hrest : ∀ t ∈ rest, wellFormedTagB env t = true := fun t ht => h t (by simp [ht])
+    match tag, hw with
+    | [], hw => simp [(wf_short env).1] at hw
+    | [x], hw => simp [(wf_short env).2 x] at hw
+    | ty :: v :: more, hw =>
+      obtain ⟨h1, h2, h3, h4⟩ := (wf_cons2 env ty v more).1 hw
+      rw [overlay_cons]
+      unfold parseTagsLoop
+      by_cases c1 : ty = SIGFLAG
+      · subst c1
+        simp only [if_true, h1 rfl]
+        rw [ih _ hrest]
+        simp [SIGFLAG, NSIGS, PUBKEYS, LOCKTIME, REFUND]
+      · by_cases c2 : ty = NSIGS
+        · subst c2
+          obtain ⟨n, hn, h0, h127⟩ := h2 rfl
+          obtain ⟨hp, hneg⟩ := (parseInt8_iff v n).2 ⟨hn, h0, h127⟩
+          simp only [c1, if_false, if_true, hp, hneg]
+          rw [ih _ hrest]
+          simp [SIGFLAG, NSIGS, PUBKEYS, LOCKTIME, REFUND, hn]
+        · by_cases c3 : ty = PUBKEYS
+          · subst c3
+            simp only [c1, c2, if_false, if_true, parseKeys_ok env (v :: more) (h4 (Or.inl rfl))]
+            rw [ih _ hrest]
+            simp [SIGFLAG, NSIGS, PUBKEYS, LOCKTIME, REFUND]
+          · by_cases c4 : ty = LOCKTIME
+            · subst c4
+              obtain ⟨l, hl, hr⟩ := h3 rfl
+              simp only [c1, c2, c3, if_false, if_true, (parseInt64_iff v l).2 ⟨hl, hr⟩]
+              rw [ih _ hrest]
+              simp [SIGFLAG, NSIGS, PUBKEYS, LOCKTIME, REFUND, hl]
+            · by_cases c5 : ty = REFUND
+              · subst c5
+                simp only [c1, c2, c3, c4, if_false, if_true, parseKeys_ok env (v :: more) (h4 (Or.inr rfl))]
+                rw [ih _ hrest]
+              · simp only [c1, c2, c3, c4, c5, if_false]
+                rw [ih _ hrest]
+
+theorem loop_err (env : Env) : ∀ (tags : List (List String)) (acc : Tags),
+    ¬ (∀ t ∈ tags, wellFormedTagB env t = true) → ∃ e, parseTagsLoop env tags acc = .err e := by
+  intro tags
+  induction tags with
+  | nil => intro acc h; simp at h
+  | cons tag rest ih =>
+    intro acc h
+    by_cases hw : wellFormedTagB env tag = true
+    · have hrest : ¬ (∀ t ∈ rest, wellFormedTagB env t = true) := by
+        intro h'; apply h; intro t ht
+        rcases List.mem_cons.1 ht with rfl | ht
+        · exact hw
+        · exact h' t ht
+      match tag, hw with
+      | [], hw => simp [(wf_short env).1] at hw
+      | [x], hw => simp [(wf_short env).2 x] at hw
+      | ty :: v :: more, hw =>
+        obtain ⟨h1, h2, h3, h4⟩ := (wf_cons2 env ty v more).1 hw
+        unfold parseTagsLoop
+        by_cases c1 : ty = SIGFLAG
+        · subst c1; simp only [if_true, h1 rfl]; exact ih _ hrest
+        · by_cases c2 : ty = NSIGS
+          · subst c2
+            obtain ⟨n, hn, h0, h127⟩ := h2 rfl
+            obtain ⟨hp, hneg⟩ := (parseInt8_iff v n).2 ⟨hn, h0, h127⟩
+            simp only [c1, if_false, if_true, hp, hneg]; exact ih _ hrest
+          · by_cases c3 : ty = PUBKEYS
+            · subst c3
+              simp only [c1, c2, if_false, if_true, parseKeys_ok env (v :: more) (h4 (Or.inl rfl))]; exact ih _ hrest
+            · by_cases c4 : ty = LOCKTIME
+              · subst c4
+                obtain ⟨l, hl, hr⟩ := h3 rfl
+                simp only [c1, c2, c3, if_false, if_true, (parseInt64_iff v l).2 ⟨hl, hr⟩]; exact ih _ hrest
+              · by_cases c5 : ty = REFUND
+                · subst c5
+                  simp only [c1, c2, c3, c4, if_false, if_true, parseKeys_ok env (v :: more) (h4 (Or.inr rfl))]; exact ih _ hrest
+                · simp only [c1, c2, c3, c4, c5, if_false]; exact ih _ hrest
+    · -- this tag is malformed: the loop stops here
+      match tag, hw with
+      | [], _ => exact ⟨.invalidTag, by simp [parseTagsLoop]⟩
+      | [x], _ => exact ⟨.invalidTag, by simp [parseTagsLoop]⟩
+      | ty :: v :: more, hw =>
+        have hw' := mt (wf_cons2 env ty v more).2 hw
+        unfold parseTagsLoop
+        by_cases c1 : ty = SIGFLAG
+        · subst c1
+          by_cases hv : v = SIGINPUTS ∨ v = SIGALL
+          · exfalso; apply hw'
+            refine ⟨fun _ => hv, ?_, ?_, ?_⟩ <;> simp [SIGFLAG, NSIGS, PUBKEYS, LOCKTIME, REFUND]
+          · simp only [if_true, hv, if_false]; exact ⟨_, rfl⟩
+        · by_cases c2 : ty = NSIGS
+          · subst c2
+            simp only [c1, if_false, if_true]
+            cases hp : parseInt v 8 with
+            | none => exact ⟨_, rfl⟩
+            | some n =>
+              simp only
+              by_cases hneg : n < 0
+              · simp only [hneg, if_true]; exact ⟨_, rfl⟩
+              · exfalso; apply hw'
+                obtain ⟨hn, h0, h127⟩ := (parseInt8_iff v n).1 ⟨hp, hneg⟩
+                refine ⟨?_, fun _ => ⟨n, hn, h0, h127⟩, ?_, ?_⟩ <;> simp [SIGFLAG, NSIGS, PUBKEYS, LOCKTIME, REFUND]
+          · by_cases c3 : ty = PUBKEYS
+            · subst c3
+              simp only [c1, c2, if_false, if_true]
+              by_cases hk : ∀ k ∈ v :: more, (env.parseKey k).isSome = true
+              · exfalso; apply hw'
+                refine ⟨?_, ?_, ?_, fun _ => hk⟩ <;> simp [SIGFLAG, NSIGS, PUBKEYS, LOCKTIME, REFUND]
+              · rw [parseKeys_err env _ hk]; exact ⟨_, rfl⟩
+            · by_cases c4 : ty = LOCKTIME
+              · subst c4
+                simp only [c1, c2, c3, if_false, if_true]
+                cases hp : parseInt v 64 with
+                | none => exact ⟨_, rfl⟩
+                | some l =>
+                  exfalso; apply hw'
+                  obtain ⟨hl, hr⟩ := (parseInt64_iff v l).1 hp
+                  refine ⟨?_, ?_, fun _ => ⟨l, hl, hr⟩, ?_⟩ <;> simp [SIGFLAG, NSIGS, PUBKEYS, LOCKTIME, REFUND]
+              · by_cases c5 : ty = REFUND
+                · subst c5
+                  simp only [c1, c2, c3, c4, if_false, if_true]
+                  by_cases hk : ∀ k ∈ v :: more, (env.parseKey k).isSome = true
+                  · exfalso; apply hw'
+                    refine ⟨?_, ?_, ?_, fun _ => hk⟩ <;> simp [SIGFLAG, NSIGS, PUBKEYS, LOCKTIME, REFUND]
+                  · rw [parseKeys_err env _ hk]; exact ⟨_, rfl⟩
+                · exfalso; apply hw'
+                  exact ⟨fun h => absurd h c1, fun h => absurd h c2, fun h => absurd h c4, fun h => h.elim (fun h => absurd h c3) (fun h => absurd h c5)⟩
+
+
+theorem parseTags_ok_iff (env : Env) (tags : List (List String)) (t : Tags) :
+    parseTags env tags = .ok t ↔ WellFormed env tags ∧ t = overlay env tags {} := by
+  rw [← wellFormedB_iff]
+  unfold parseTags wellFormedB
+  by_cases h5 : tags.length > 5
+  · simp only [h5, if_true]
+    constructor
+    · intro h; cases h
+    · rintro ⟨h, _⟩; simp at h; omega
+  · simp only [h5, if_false, Bool.and_eq_true, decide_eq_true_eq, List.all_eq_true]
+    by_cases hall : ∀ t ∈ tags, wellFormedTagB env t = true
+    · rw [loop_ok env tags {} hall]
+      constructor
+      · intro h; cases h; exact ⟨⟨by omega, hall⟩, rfl⟩
+      · rintro ⟨_, rfl⟩; rfl
+    · obtain ⟨e, he⟩ := loop_err env tags {} hall
+      rw [he]
+      constructor
+      · intro h; cases h
+      · rintro ⟨⟨_, h⟩, _⟩; exact absurd h hall
+
+theorem parseTags_err_iff (env : Env) (tags : List (List String)) :
+    (∃ e, parseTags env tags = .err e) ↔ ¬ WellFormed env tags := by
+  constructor
+  · rintro ⟨e, he⟩ hw
+    have := (parseTags_ok_iff env tags (overlay env tags {})).2 ⟨hw, rfl⟩
+    rw [he] at this; cases this
+  · intro hw
+    cases hp : parseTags env tags with
+    | ok t => exact absurd ((parseTags_ok_iff env tags t).1 hp).1 hw
+    | err e => exact ⟨e, rfl⟩
+
+/-- the parsed tags carry exactly the condition the declarative reading assigns to the tag list -/
+theorem overlay_cond (env : Env) (tags : List (List String)) :
+    (overlay env tags {}).nSigs = (condOf env tags).nSigs ∧ (overlay env tags {}).pubkeys = (condOf env tags).pubkeys ∧
+    (overlay env tags {}).locktime = (condOf env tags).locktime ∧ (overlay env tags {}).refund = (condOf env tags).refund := by
+  simp only [overlay, condOf, intOfTag, keysOfTag]
+  refine ⟨?_, ?_, ?_, ?_⟩
+  · cases lastTag NSIGS tags <;> simp
+  · cases lastTag PUBKEYS tags <;> simp
+  · cases lastTag LOCKTIME tags <;> simp
+  · cases lastTag REFUND tags <;> simp
+
+theorem parseTags_cond {env : Env} {tags : List (List String)} {t : Tags} (h : parseTags env tags = .ok t) :
+    WellFormed env tags ∧ t.nSigs = (condOf env tags).nSigs ∧ t.pubkeys = (condOf env tags).pubkeys ∧
+    t.locktime = (condOf env tags).locktime ∧ t.refund = (condOf env tags).refund := by
+  obtain ⟨hw, rfl⟩ := (parseTags_ok_iff env tags t).1 h
+  exact ⟨hw, overlay_cond env tags⟩
+
+theorem expired_iff {env : Env} {tags : List (List String)} {t : Tags} (h : parseTags env tags = .ok t) :
+    expired env t = true ↔ Expired env (condOf env tags) := by
+  obtain ⟨_, _, _, hl, _⟩ := parseTags_cond h
+  simp [expired, Expired, hl]
+
+theorem hasValidSignatures_one_iff (valid : Sig → Key → Msg → Bool) (m : Msg) (sigs : List Sig) (keys : List Key) :
+    hasValidSignatures valid m sigs 1 keys = true ↔ Signed valid m sigs keys 1 := by
+  simp only [hasValidSignatures, decide_eq_true_eq, ge_iff_le, one_le_hvsCount_iff, signed_one_iff]
+
+theorem hasValidSignatures_sound (valid : Sig → Key → Msg → Bool) (m : Msg) (sigs : List Sig) (n : Nat) (keys : List Key)
+    (h : hasValidSignatures valid m sigs n keys = true) : Signed valid m sigs keys n := by
+  simp only [hasValidSignatures, decide_eq_true_eq] at h
+  exact signed_mono (hvsCount_signed valid m sigs keys) h
+
+theorem hasValidSignatures_complete (valid : Sig → Key → Msg → Bool) (m : Msg) (sigs : List Sig) (n : Nat) (keys : List Key)
+    (hu : UniqueSigner valid m keys) (h : Signed valid m sigs keys n) : hasValidSignatures valid m sigs n keys = true := by
+  simp only [hasValidSignatures, decide_eq_true_eq]
+  exact signed_le_hvsCount valid m sigs keys n hu h
+
+/-- the keys that may sign before the locktime -/
+def lockKeys (env : Env) (s : Secret) : List Key := (env.parseKey s.data).toList ++ (condOf env s.tags).pubkeys
+
+theorem verifyP2PK_sound (env : Env) (p : Proof) (s : Secret) (h : verifyP2PK env p s = .ok ()) :
+    spendableP2PK env s p.msg p.witness := by
+  unfold verifyP2PK at h
+  cases hp : parseTags env s.tags with
+  | err e => simp [hp] at h
+  | ok t =>
+    obtain ⟨hw, hn, hpk, hl, hr⟩ := parseTags_cond hp
+    simp only [hp] at h
+    refine ⟨hw, ?_⟩
+    by_cases hx : expired env t = true
+    · have hX := (expired_iff hp).1 hx
+      simp only [hx, if_true] at h
+      simp only [hX, if_true]
+      by_cases hr0 : t.refund.length = 0
+      · left; rw [← hr]; exact List.length_eq_zero_iff.1 hr0
+      · right
+        by_cases hlen : p.witness.signatures.length < 1
+        · simp [hr0, hlen] at h
+        · by_cases hv : hasValidSignatures env.valid p.msg p.witness.signatures 1 t.refund = true
+          · rw [← hr]; exact (hasValidSignatures_one_iff _ _ _ _).1 hv
+          · simp [hr0, hlen, hv] at h
+    · have hX : ¬ Expired env (condOf env s.tags) := fun hX => hx ((expired_iff hp).2 hX)
+      simp only [hx] at h
+      simp only [hX, if_false]
+      cases hk : env.parseKey s.data with
+      | none => simp [hk] at h
+      | some k =>
+        simp only [hk] at h
+        refine ⟨k, rfl, ?_⟩
+        by_cases he : t.nSigs > 0 ∧ t.pubkeys.length = 0
+        · rw [if_pos he] at h; cases h
+        · rw [if_neg he] at h
+          by_cases hlen : p.witness.signatures.length < 1
+          · simp only [hlen, if_true] at h; cases h
+          · by_cases hd : duplicateSignatures p.witness.signatures = true
+            · simp only [hlen, hd, if_true, if_false] at h; cases h
+            · by_cases hv : hasValidSignatures env.valid p.msg p.witness.signatures (if t.nSigs > 0 then t.nSigs else 1)
+                  (if t.nSigs > 0 then k :: t.pubkeys else [k]) = true
+              · rw [← hn, ← hpk]
+                refine ⟨?_, (duplicateSignatures_iff _).1 (by simpa using hd), ?_⟩
+                · intro hpos hnil
+                  exact he ⟨hpos, by simp [hnil]⟩
+                · have := hasValidSignatures_sound _ _ _ _ _ hv
+                  by_cases hpos : t.nSigs > 0
+                  · simp only [hpos, if_true] at this ⊢
+                    rwa [Nat.max_eq_right (by omega)]
+                  · simp only [hpos, if_false] at this ⊢
+                    rwa [Nat.max_eq_left (by omega)]
+              · simp only [hlen, hd, hv, if_false, Bool.not_false, if_true, Bool.false_eq_true] at h; cases h
+
+
+theorem verifyP2PK_complete (env : Env) (p : Proof) (s : Secret) (hu : UniqueSigner env.valid p.msg (lockKeys env s))
+    (h : spendableP2PK env s p.msg p.witness) : verifyP2PK env p s = .ok () := by
+  obtain ⟨hw, h⟩ := h
+  have hp := (parseTags_ok_iff env s.tags _).2 ⟨hw, rfl⟩
+  obtain ⟨_, hn, hpk, hl, hr⟩ := parseTags_cond hp
+  generalize overlay env s.tags {} = t at hp hn hpk hl hr
+  unfold verifyP2PK
+  simp only [hp]
+  by_cases hX : Expired env (condOf env s.tags)
+  · have hx := (expired_iff hp).2 hX
+    simp only [hX, if_true] at h
+    simp only [hx, if_true]
+    by_cases hr0 : t.refund.length = 0
+    · rw [if_pos hr0]
+    · rw [if_neg hr0]
+      rcases h with h | h
+      · exact absurd (by rw [hr, h]; rfl) hr0
+      · rw [← hr] at h
+        have hlen : ¬ p.witness.signatures.length < 1 := by have := (signed_le h).1; omega
+        rw [if_neg hlen, (hasValidSignatures_one_iff _ _ _ _).2 h]
+        rfl
+  · have hx : ¬ expired env t = true := fun hx => hX ((expired_iff hp).1 hx)
+    simp only [hX, if_false] at h
+    obtain ⟨k, hk, hne, hnd, hs⟩ := h
+    rw [← hn, ← hpk] at hne hs
+    simp only [hx, hk]
+    have he : ¬ (t.nSigs > 0 ∧ t.pubkeys.length = 0) := by
+      rintro ⟨h1, h2⟩; exact hne h1 (List.length_eq_zero_iff.1 h2)
+    rw [if_neg he]
+    have hreq : (if t.nSigs > 0 then t.nSigs else 1) = max 1 t.nSigs := by
+      split <;> omega
+    have hkeys : (if t.nSigs > 0 then k :: t.pubkeys else [k]) = k :: (if t.nSigs > 0 then t.pubkeys else []) := by
+      split <;> rfl
+    have hlen : ¬ p.witness.signatures.length < 1 := by have := (signed_le hs).1; omega
+    have hd : duplicateSignatures p.witness.signatures = false := (duplicateSignatures_iff _).2 hnd
+    have huk : UniqueSigner env.valid p.msg (k :: (if t.nSigs > 0 then t.pubkeys else [])) := by
+      apply hu.mono
+      intro x hx
+      simp only [lockKeys, hk, Option.toList_some, List.singleton_append, ← hpk]
+      rcases List.mem_cons.1 hx with rfl | hx
+      · simp
+      · split at hx
+        · exact List.mem_cons_of_mem _ hx
+        · simp at hx
+    have hv := hasValidSignatures_complete _ _ _ _ _ huk hs
+    simp only [hlen, hd, hreq, hkeys, hv, if_false, Bool.not_true, Bool.false_eq_true]
+
+theorem verifyHTLC_sound (env : Env) (p : Proof) (s : Secret) (h : verifyHTLC env p s = .ok ()) :
+    spendableHTLC env s p.msg p.witness := by
+  unfold verifyHTLC at h
+  cases hp : parseTags env s.tags with
+  | err e => simp [hp] at h
+  | ok t =>
+    obtain ⟨hw, hn, hpk, hl, hr⟩ := parseTags_cond hp
+    simp only [hp] at h
+    refine ⟨hw, ?_⟩
+    by_cases hx : expired env t = true
+    · have hX := (expired_iff hp).1 hx
+      simp only [hx, if_true] at h
+      simp only [hX, if_true]
+      by_cases hr0 : t.refund.length = 0
+      · left; rw [← hr]; exact List.length_eq_zero_iff.1 hr0
+      · right
+        rw [if_neg hr0] at h
+        by_cases hlen : p.witness.signatures.length < 1
+        · rw [if_pos hlen] at h; cases h
+        · by_cases hv : hasValidSignatures env.valid p.msg p.witness.signatures 1 t.refund = true
+          · rw [← hr]; exact (hasValidSignatures_one_iff _ _ _ _).1 hv
+          · simp only [hlen, hv, if_false, Bool.not_false, if_true, Bool.false_eq_true] at h; cases h
+    · have hX : ¬ Expired env (condOf env s.tags) := fun hX => hx ((expired_iff hp).2 hX)
+      simp only [hx] at h
+      simp only [hX, if_false]
+      cases hc : checkPreimage env p.witness.preimage s.data with
+      | err e => simp [hc] at h
+      | ok u =>
+        simp only [hc] at h
+        constructor
+        · -- the preimage opens the lock
+          unfold checkPreimage at hc
+          cases hd : hexDecode p.witness.preimage with
+          | none => simp [hd] at hc
+          | some bytes =>
+            simp only [hd] at hc
+            by_cases h64 : s.data.length ≠ 64
+            · rw [if_pos h64] at hc; cases hc
+            · rw [if_neg h64] at hc
+              by_cases hh : env.sha256hex bytes ≠ s.data
+              · rw [if_pos hh] at hc; cases hc
+              · exact ⟨by simpa using h64, bytes, hd, by simpa using hh⟩
+        · intro hpos
+          rw [← hn] at hpos
+          simp only [hpos, if_true] at h
+          by_cases hlen : p.witness.signatures.length < 1
+          · simp only [hlen, if_true] at h; cases h
+          · by_cases hd : duplicateSignatures p.witness.signatures = true
+            · simp only [hlen, hd, if_true, if_false] at h; cases h
+            · by_cases hv : hasValidSignatures env.valid p.msg p.witness.signatures t.nSigs t.pubkeys = true
+              · rw [← hn, ← hpk]
+                exact ⟨(duplicateSignatures_iff _).1 (by simpa using hd), hasValidSignatures_sound _ _ _ _ _ hv⟩
+              · simp only [hlen, hd, hv, if_false, Bool.not_false, if_true, Bool.false_eq_true] at h; cases h
+
+theorem checkPreimage_of_opens {env : Env} {pre data : String} (h : Opens env pre data) : checkPreimage env pre data = .ok () := by
+  obtain ⟨h64, bytes, hd, hh⟩ := h
+  unfold checkPreimage
+  simp [hd, h64, hh]
+
+theorem verifyHTLC_complete (env : Env) (p : Proof) (s : Secret)
+    (hu : UniqueSigner env.valid p.msg (condOf env s.tags).pubkeys)
+    (h : spendableHTLC env s p.msg p.witness) : verifyHTLC env p s = .ok () := by
+  obtain ⟨hw, h⟩ := h
+  have hp := (parseTags_ok_iff env s.tags _).2 ⟨hw, rfl⟩
+  obtain ⟨_, hn, hpk, hl, hr⟩ := parseTags_cond hp
+  generalize overlay env s.tags {} = t at hp hn hpk hl hr
+  unfold verifyHTLC
+  simp only [hp]
+  by_cases hX : Expired env (condOf env s.tags)
+  · have hx := (expired_iff hp).2 hX
+    simp only [hX, if_true] at h
+    simp only [hx, if_true]
+    by_cases hr0 : t.refund.length = 0
+    · rw [if_pos hr0]
+    · rw [if_neg hr0]
+      rcases h with h | h
+      · exact absurd (by rw [hr, h]; rfl) hr0
+      · rw [← hr] at h
+        have hlen : ¬ p.witness.signatures.length < 1 := by have := (signed_le h).1; omega
+        rw [if_neg hlen, (hasValidSignatures_one_iff _ _ _ _).2 h]
+        rfl
+  · have hx : ¬ expired env t = true := fun hx => hX ((expired_iff hp).1 hx)
+    simp only [hX, if_false] at h
+    obtain ⟨hopen, hs⟩ := h
+    simp only [hx, checkPreimage_of_opens hopen, Bool.false_eq_true, if_false]
+    by_cases hpos : t.nSigs > 0
+    · rw [if_pos hpos]
+      obtain ⟨hnd, hs⟩ := hs (by rw [← hn]; exact hpos)
+      rw [← hn, ← hpk] at hs
+      have hlen : ¬ p.witness.signatures.length < 1 := by have := (signed_le hs).1; omega
+      have hd : duplicateSignatures p.witness.signatures = false := (duplicateSignatures_iff _).2 hnd
+      have hv := hasValidSignatures_complete _ _ _ _ _ (by rw [hpk]; exact hu) hs
+      simp only [hlen, hd, hv, if_false, Bool.not_true, Bool.false_eq_true]
+    · rw [if_neg hpos]
 
 end Gonuts.Lemmas.Spend
